@@ -98,18 +98,21 @@ SPACES = {
         _space(["A", "B", "C", "D"], [H0, HA, HB], 0),
         _space(["AA", "AB"], [H0, HA, HB], 1),
         _space(["AC"], [H0, HA], 1),
-        _space(["AD"], [H0, HA], 2),
-        _space(["DD"], [H0], 4),
-        _space(["AAA", "AAB"], [H0], 2),
-        _space(["AAA", "AAB"], [HA], 2, bound=2),
-        _space(["AA", "AB"], [H0, HA, HB], 2, full=True, budget=60),
+        _space(["AD"], [H0], 2),
+        _space(["AAA"], [H0], 2),
+        _space(["AAB"], [H0], 2, bound=2),
+        _space(["AAA"], [HA], 2, bound=2),
+        _space(["AA", "AB"], [H0, HA], 2, full=True, budget=60),
     ],
     "thorough": [
         _space(["A", "B", "C", "D"], [H0, HA, HB, ["A", "A"], HAB, ["D"]], 0),
         _space(["AA", "AB", "AC", "AD", "BD"], [H0, HA, HB, HAB], 2),
-        _space(["DD"], [H0, HA], 4),
-        _space(["AAA", "AAB", "ABB", "ABC"], [H0, HA, HB], 4, budget=5000),
-        _space(["AAD"], [H0], 4, bound=4),
+        _space(["DD"], [H0], 4),
+        _space(["DD"], [HA], 4, bound=4),
+        _space(["AAA", "AAB", "ABB", "ABC"], [H0], 3),
+        _space(["AAA", "ABC"], [HA, HB], 4, budget=3000),
+        _space(["AAB", "ABB"], [HA, HB], 4, bound=4),
+        _space(["AAD"], [H0], 4, bound=3),
         _space(["AA", "AB", "AC"], [H0, HA, HB, HAB], 2, full=True, budget=400),
         _space(["AD", "BD"], [H0, HA], 4, full=True, budget=400),
     ],
